@@ -182,7 +182,7 @@ class UnionNode(XmlNode):
                 max_score = score
                 obj = result
 
-        if obj:
+        if obj is not None:
             objects.append((self.var.qname, obj))
 
             return True
